@@ -25,11 +25,13 @@ RULE = ("complete enumeration (itertools.product) of the fault table; each cell 
         "loads back to the same content and a warning is emitted. Non-trivial = a cell where the call raised "
         "and the target pre-existed; distinct = distinct (cell, document)")
 ASSUMPTIONS = ["faults are content-caused (those the property lists) - no OS-level I/O errors are injected",
-               "duplicate sibling names can no longer be produced through the public API (counted as skipped)",
+               "duplicate sibling names are produced with list.insert on the child lists (.sections / "
+               ".properties), the only route that still admits them",
                "'trix' is listed by the library but cannot be written from a plain graph by the installed "
                "rdflib: it is treated as a serialisation fault"]
 
-ROUTES = ["valid", "warnings_only", "type_cleared", "duplicate_ids"]
+ROUTES = ["valid", "warnings_only", "type_cleared", "duplicate_ids", "duplicate_names_top",
+          "duplicate_names_nested", "duplicate_prop_names"]
 FAULTS = ["none", "rdf_format_unknown", "xml_forbidden_value", "xml_forbidden_attr", "xml_forbidden_name",
           "json_unencodable_attr", "lone_surrogate"]
 FORMATS = [("XML", "plain"), ("XML", "local_style"), ("JSON", None), ("YAML", None)] + \
@@ -69,6 +71,18 @@ def make_doc(spec, route, fault):
     elif route == "duplicate_ids":
         other = odml.Section(name="c07-twin", type="t", parent=doc)
         other.new_id(sec.id)
+        expect_error = True
+    elif route.startswith("duplicate_"):
+        # no container method admits duplicates any more; the child lists themselves still do
+        if route == "duplicate_names_top":
+            odml.Section(name="c07-dup", type="t", parent=doc)
+            doc.sections.insert(0, odml.Section(name="c07-dup", type="t"))
+        elif route == "duplicate_names_nested":
+            odml.Section(name="twin", type="t", parent=sec)
+            sec.sections.insert(0, odml.Section(name="twin", type="t"))
+        else:
+            odml.Property(name="c07-dup-prop", values=[2], parent=sec)
+            sec.properties.insert(0, odml.Property(name="c07-dup-prop", values=[1]))
         expect_error = True
     if fault == "xml_forbidden_value":
         prop.values = ["fine", "bad\x00char"]
